@@ -284,8 +284,13 @@ AS 1
 2 C1 1 AS SC1 2 0.0 36.0
 [ bonds ]
 BB SC1 1 0.31 5000
+[ moleculetype ]
+; another cap that is not an amino acid: its name only begins like one
+GLYX 1
+[ atoms ]
+1 SN0 1 GLYX BB 1 0.0 72.0
 [ link ]
-resname "ALA|GLY|LYS|AS"
+resname "ALA|GLY|LYS|AS|GLYX"
 [ bonds ]
 BB +BB 1 0.35 4000
 [ link ]
@@ -328,9 +333,9 @@ def _snapshot(mol):
            rejects=(), selector_only=True, must_cover=["default termini", "explicit", "several", "offset", "relabelled", "non-protein terminus untouched"],
            assumes=["residue ids >= 1"],
            outside=["modifications that add atoms", "-mods spec parsing (vermouth parse_residue_spec is used as is)"],
-           bounds={"quick": dict(seqs=[["ALA", "GLY", "LYS"], ["LYS", "ALA"], ["GLY"], ["AS", "ALA", "GLY"], ["GLY", "AS"], ["LYS", "GLY", "ALA"]], starts=[1, 4]),
+           bounds={"quick": dict(seqs=[["ALA", "GLY", "LYS"], ["LYS", "ALA"], ["GLY"], ["AS", "ALA", "GLY"], ["GLY", "AS"], ["LYS", "GLY", "ALA"], ["GLYX", "ALA"]], starts=[1, 4]),
                    "thorough": dict(seqs=[["ALA", "GLY", "LYS"], ["LYS", "ALA"], ["GLY"], ["LYS", "LYS", "ALA", "GLY"], ["AS", "ALA", "GLY"],
-                                          ["GLY", "AS"], ["AS", "LYS", "AS"], ["LYS", "GLY", "ALA"], ["GLY", "ALA"]], starts=[1, 2, 4, 30])})
+                                          ["GLY", "AS"], ["AS", "LYS", "AS"], ["LYS", "GLY", "ALA"], ["GLY", "ALA"], ["GLYX", "ALA"], ["ALA", "GLYX"]], starts=[1, 2, 4, 30])})
 def modifications(sx, B):
     """Real ApplyModifications after the real MapToMolecule/ApplyLinks on small peptides: default terminal modifications or an explicit
     -mods selection, residue ids starting anywhere, node keys relabelled. Claims: a modification changes only the attributes it names, on
@@ -417,7 +422,7 @@ def modifications(sx, B):
            rejects=(), selector_only=True, must_cover=["default termini", "explicit", "non-protein terminus untouched", "atom renamed by a link before the modification"],
            stubs=["apply_links.tqdm -> plain iteration"],
            outside=["sequences other than the listed ones"],
-           bounds={"quick": dict(seqs=[["ALA", "GLY", "LYS"], ["LYS", "ALA"], ["AS", "ALA", "GLY"], ["GLY", "ALA"]]),
+           bounds={"quick": dict(seqs=[["ALA", "GLY", "LYS"], ["LYS", "ALA"], ["AS", "ALA", "GLY"], ["GLY", "ALA"], ["GLYX", "ALA"]]),
                    "thorough": dict(seqs=[["ALA", "GLY", "LYS"], ["LYS", "ALA"], ["GLY"], ["AS", "ALA", "GLY"], ["GLY", "AS"], ["LYS", "LYS", "ALA", "GLY"], ["GLY", "ALA"]])})
 def gen_params_mods(sx, B):
     """The same through the real gen_params (files in, .itp out, read back with the real reader): the `mods` option reaches the
